@@ -438,7 +438,7 @@ def wf_events(init, history, st):
             out += [['pad', sz, 0], ['pad', sz, 7.5], ['pad_new', sz, 0]]
         if sz[0] <= cur[0] and sz[1] <= cur[1]:
             out += [['crop', sz], ['crop_new', sz]]
-    out += ['write', 'rebind']
+    out += ['write', 'rebind', 'inspect']
     return out
 
 
@@ -466,6 +466,16 @@ def wf_apply(st, ev, R):
         out = None
         w.data[...] = w.data + 100
         st.model = st.model + 100
+    elif name == 'inspect':        # the user looks at the field between steps: intensity / phase views with their coordinates and slices
+        out = None                 # (an event of its own: histories are replayed without the per-state checks, so only an event can
+        for attr in ('intensity', 'phase'):                               # leave something behind in the object)
+            v = R.call(getattr, w, attr, sig=f'Wavefront.{attr}:history:exception', hygiene=False)
+            if v is FAILED:
+                out = FAILED
+                break
+            for a in ('x', 'y', 'r', 't'):
+                R.call(getattr, v, a, sig=f'Wavefront.{attr}.{a}:history:exception', hygiene=False)
+            R.call(v.slices, sig=f'Wavefront.{attr}.slices:history:exception', hygiene=False)
     elif name == 'rebind':         # the user assigns a new array of the same shape (wf.data = wf.data * 2)
         out = None
         w.data = w.data * 2
@@ -485,11 +495,13 @@ def wf_check(st, init, history, R):
     name = last if isinstance(last, str) else last[0]
     R.expect_equal(st.wf.data, st.model, f'Wavefront:history:{name}', f'Wavefront data after {history} differ from the array model (pad embeds sample n//2 at N//2 into a border of the fill value, crop slices about n//2)')
     R.expect(st.wf.dx == 1.0 and st.wf.wavelength == 0.5, f'Wavefront:history:{name}:meta', 'dx / wavelength changed')
-    # the views a user inspects between steps (intensity / phase as RichData with coordinates and slices): taken in EVERY state, so a
-    # view that remembers the grid or the slices of an earlier state is primed before every later pad / crop
+    # the views a user inspects (intensity / real part as RichData with coordinates and slices) are judged in EVERY state, on a copy of
+    # the object; the event ``inspect`` is what primes a view that remembers the grid or the slices of an earlier state
     n0, n1 = st.model.shape
+    import copy as _copy
+    probe = _copy.deepcopy(st.wf)     # observer effect: taking a view may leave something behind in the object, so the oracle looks at a copy
     for attr, wantd in (('intensity', np.abs(st.model) ** 2), ('real', st.model.real)):
-        v = R.call(getattr, st.wf, attr, sig=f'Wavefront.{attr}:history:exception', hygiene=False)
+        v = R.call(getattr, probe, attr, sig=f'Wavefront.{attr}:history:exception', hygiene=False)
         if v is FAILED:
             continue
         R.expect_equal(getattr(v, 'data', None), wantd, f'Wavefront.{attr}:history:data', f'.{attr}.data after {history}')
@@ -511,11 +523,31 @@ def wf_check(st, init, history, R):
     R.outcome(name)
 
 
+def _attr_digest(v, depth=2):
+    if v is None or isinstance(v, (bool, int, float, str)):
+        return repr(v)
+    if isinstance(v, np.ndarray):
+        return ('nd', v.shape, str(v.dtype), np.ascontiguousarray(v).tobytes() if v.size <= 4096 else None)
+    if isinstance(v, (tuple, list)):
+        return tuple(_attr_digest(w, depth) for w in v)
+    if isinstance(v, dict):
+        return tuple(sorted((repr(k), _attr_digest(w, depth)) for k, w in v.items()))
+    if depth > 0 and hasattr(v, '__dict__'):
+        return (type(v).__name__,) + tuple(sorted((k, _attr_digest(w, depth - 1)) for k, w in vars(v).items()))
+    return type(v).__name__
+
+
+WF_KNOWN = {'data', 'wavelength', 'dx', 'space'}
+
+
 def wf_canon(st):
     if st.dead:
         return 'dead'
     d = np.asarray(st.wf.data)
-    return (d.shape, np.ascontiguousarray(d).tobytes(), bool(d.flags.owndata), bool(d.flags.c_contiguous))
+    # anything else an implementation keeps on the instance (a remembered grid, a pad buffer, a tag of the unpadded shape) can be read
+    # by a later transition and is part of the state; on the pinned tree there is no such attribute
+    extra = tuple(sorted((k, _attr_digest(v)) for k, v in vars(st.wf).items() if k not in WF_KNOWN))
+    return (d.shape, np.ascontiguousarray(d).tobytes(), bool(d.flags.owndata), bool(d.flags.c_contiguous), extra)
 
 
 def plan(tier, seed):
@@ -549,9 +581,9 @@ def plan(tier, seed):
     wf_unit = HistoryUnit('wavefront_history', wf_inits, wf_fresh, wf_events, wf_apply, wf_check, wf_canon, wf_depth,
                           f'BFS to depth {wf_depth} over histories of ONE Wavefront object from shapes {[i["shape"] for i in wf_inits]}: events pad2d in place to every '
                           f'larger-or-equal size of {WF_SIZES} with fill 0 / 7.5, pad2d out of place, crop in place / out of place to every smaller-or-equal '
-                          'size, write (data[...] += 100 in place), rebind (data = data*2); labelled complex data; in every state the data equal the plain-array '
+                          'size, write (data[...] += 100 in place), rebind (data = data*2), inspect (take the intensity / phase views and read their x, y, r, t and slices); labelled complex data; in every state the data equal the plain-array '
                           'model (pad embeds sample n//2 at N//2 into a border of the fill value, crop slices about n//2), out-of-place results equal the model '
-                          'result and leave the object alone; canonical state = (shape, data bytes, owns-data / contiguity flags of the data array)', reset=rs)
+                          'result and leave the object alone; canonical state = (shape, data bytes, owns-data / contiguity flags of the data array, digest of every further instance attribute)', reset=rs)
     return [
         wf_unit,
         ScopeUnit('grids', grid_cases, run_grid,
